@@ -633,6 +633,75 @@ func c20TicketKeys(c *Ctx) {
 	}
 	rep.Count("ticketkey_histories_checked", int64(histories))
 	rep.Count("ticketkey_histories_checker_timeout(inconclusive)", int64(unknown))
+
+	// a ticket whose key stays configured through every rotation must decrypt at every moment: the rotator switches
+	// between key lists of different lengths in which that key sits at different positions ([x, y, K] <-> [K] <-> [z, K]),
+	// while other goroutines keep decrypting the ticket. Whatever is read in two steps (a position, then a list) shows.
+	{
+		K := keys[0]
+		lists := [][][32]byte{{keys[1], keys[2], K}, {K}, {keys[3], K}, {keys[4], keys[5], keys[1], K}, {K, keys[2]}}
+		cfg := &gmtls.Config{}
+		cfg.SetSessionTicketKeys([][32]byte{K})
+		master := bytes.Repeat([]byte{0x42}, 48)
+		ticket, err := gmtls.VerifEncryptTicket(cfg, gmtls.VersionGMSSL, gmtls.GMTLS_ECC_SM4_CBC_SM3, master, nil)
+		if err != nil {
+			rep.Note("ticket-keys: cannot issue a ticket: " + err.Error())
+			return
+		}
+		var stop int32
+		var refused, wrong, total int64
+		var panicMu sync.Mutex
+		panics := map[string]int{}
+		var wg sync.WaitGroup
+		wg.Add(1)
+		go func() {
+			defer wg.Done()
+			for i := 0; atomic.LoadInt32(&stop) == 0; i++ {
+				cfg.SetSessionTicketKeys(lists[i%len(lists)])
+			}
+		}()
+		readers := 8
+		per := c.Q(3000, 100000)
+		var rg sync.WaitGroup
+		for g := 0; g < readers; g++ {
+			rg.Add(1)
+			go func() {
+				defer rg.Done()
+				for i := 0; i < per; i++ {
+					var ok bool
+					var m []byte
+					tc := append([]byte{}, ticket...) // decryptTicket works in place on what it is given (its callers hand it a copy)
+					if pi := mon.Guard(func() { ok, _, _, m, _ = gmtls.VerifDecryptTicket(cfg, tc) }); pi != nil {
+						panicMu.Lock()
+						panics[pi.Func+": "+pi.Value]++
+						panicMu.Unlock()
+						continue
+					}
+					atomic.AddInt64(&total, 1)
+					if !ok {
+						atomic.AddInt64(&refused, 1)
+					} else if !bytes.Equal(m, master) {
+						atomic.AddInt64(&wrong, 1)
+					}
+				}
+			}()
+		}
+		rg.Wait()
+		atomic.StoreInt32(&stop, 1)
+		wg.Wait()
+		w := map[string]interface{}{"decryptions": total, "refused": refused, "wrong_content": wrong}
+		if refused > 0 {
+			rep.Violation("C20/ticket-keys/valid-ticket-refused-during-rotation", fmt.Sprintf("%d of %d decryptions of a ticket whose key was configured throughout were refused", refused, total), w)
+		}
+		if wrong > 0 {
+			rep.Violation("C20/ticket-keys/ticket-decrypts-to-other-content-during-rotation", fmt.Sprint(wrong), w)
+		}
+		for p, n := range panics {
+			rep.Violation("C20/ticket-keys/panic-during-rotation", fmt.Sprintf("%d times: %s", n, p), w)
+		}
+		rep.Count("ticket_decryptions_during_rotation", total)
+		rep.Eval("ticket-keys/decrypt-during-rotation-of-lists-of-different-lengths")
+	}
 }
 
 // ---------------------------------------------------------------- (5)
